@@ -103,13 +103,13 @@ theorem decode_text_section_text (pre post : List Char) (items : List HexItem) (
 /-! ## adjacent literals are merged raw by the lexer -/
 
 /-- Same line: `"a"`, optional white space, `"b"`, then `;` - the lexer delivers ONE string
-token whose text is the raw concatenation (after any text `p` carried in from preceding
-lines), immediately before the `;` token. -/
-theorem merge_same_line (lno : Nat) (p : String) (a sep b : List Char)
+token whose text is the raw concatenation (after the literal `p` carried in from preceding
+lines, if any), immediately before the `;` token. -/
+theorem merge_same_line (lno : Nat) (p : Option String) (a sep b : List Char)
     (ha : ∀ c ∈ a, c ≠ '"') (hb : ∀ c ∈ b, c ≠ '"') (hsep : sep.all isWs = true) :
     (Lex.line lno p (String.ofList ('"' :: (a ++ '"' :: (sep ++ '"' :: (b ++ ['"', ';'])))))).map
         (fun o => (o.toks.map fun t => (t.kind, t.text), o.pending)) =
-      .ok ([(.strLit, p ++ String.ofList a ++ String.ofList b), (.semi, "")], "") := by
+      .ok ([(.strLit, p.getD "" ++ String.ofList a ++ String.ofList b), (.semi, "")], none) := by
   have h := line_eq_spec lno p (String.ofList ('"' :: (a ++ '"' :: (sep ++ '"' :: (b ++ ['"', ';'])))))
   rw [lexLine_two_strings lno p a sep b ha hb hsep] at h
   cases hl : Lex.line lno p (String.ofList ('"' :: (a ++ '"' :: (sep ++ '"' :: (b ++ ['"', ';']))))) with
@@ -119,25 +119,57 @@ theorem merge_same_line (lno : Nat) (p : String) (a sep b : List Char)
     simp only [Except.map, Except.ok.injEq, Prod.mk.injEq] at h ⊢
     rw [h.1, h.2]; simp
 
-/-- Consecutive lines: `"a"` at the end of one line carries `a` (after `p`) to the next line,
-where `"b";` yields ONE string token with the raw concatenation. -/
-theorem merge_across_lines (lno : Nat) (p : String) (a b : List Char)
+/-- Consecutive lines: `"a"` at the end of one line carries the literal `a` (after `p`, if any) to
+the next line - as a pending literal `some _`, also when it is empty - where `"b";` yields ONE
+string token with the raw concatenation. -/
+theorem merge_across_lines (lno : Nat) (p : Option String) (a b : List Char)
     (ha : ∀ c ∈ a, c ≠ '"') (hb : ∀ c ∈ b, c ≠ '"') :
     (Lex.line lno p (String.ofList ('"' :: (a ++ ['"'])))).map (fun o => (o.toks, o.pending)) =
-        .ok ([], p ++ String.ofList a) ∧
-    (Lex.line (lno + 1) (p ++ String.ofList a) (String.ofList ('"' :: (b ++ ['"', ';'])))).map
+        .ok ([], some (p.getD "" ++ String.ofList a)) ∧
+    (Lex.line (lno + 1) (some (p.getD "" ++ String.ofList a)) (String.ofList ('"' :: (b ++ ['"', ';'])))).map
         (fun o => (o.toks.map fun t => (t.kind, t.text), o.pending)) =
-      .ok ([(.strLit, p ++ String.ofList a ++ String.ofList b), (.semi, "")], "") := by
+      .ok ([(.strLit, p.getD "" ++ String.ofList a ++ String.ofList b), (.semi, "")], none) := by
   constructor
   · rw [line_eq_spec, lexLine_string_only lno p a ha]
-  · have h := line_eq_spec (lno + 1) (p ++ String.ofList a) (String.ofList ('"' :: (b ++ ['"', ';'])))
+  · have h := line_eq_spec (lno + 1) (some (p.getD "" ++ String.ofList a))
+      (String.ofList ('"' :: (b ++ ['"', ';'])))
     rw [lexLine_string_semi (lno + 1) _ b hb] at h
-    cases hl : Lex.line (lno + 1) (p ++ String.ofList a) (String.ofList ('"' :: (b ++ ['"', ';']))) with
+    cases hl : Lex.line (lno + 1) (some (p.getD "" ++ String.ofList a))
+        (String.ofList ('"' :: (b ++ ['"', ';']))) with
     | error e => rw [hl] at h; cases h
     | ok o =>
       rw [hl] at h
       simp only [Except.map, Except.ok.injEq, Prod.mk.injEq] at h ⊢
       rw [h.1, h.2]; simp
+
+/-- A carried literal is not lost when NO further literal follows: `"a"` at the end of one line and
+`;` on the next yield the string token `a` (after `p`, if any) before the `;`. -/
+theorem merge_across_lines_flush (lno : Nat) (p : Option String) (a : List Char) (ha : ∀ c ∈ a, c ≠ '"') :
+    (Lex.line lno p (String.ofList ('"' :: (a ++ ['"'])))).map (fun o => (o.toks, o.pending)) =
+        .ok ([], some (p.getD "" ++ String.ofList a)) ∧
+    (Lex.line (lno + 1) (some (p.getD "" ++ String.ofList a)) (String.ofList [';'])).map
+        (fun o => (o.toks, o.pending)) =
+      .ok ([⟨.strLit, p.getD "" ++ String.ofList a, ⟨lno + 1, 1⟩⟩, ⟨.semi, "", ⟨lno + 1, 1⟩⟩], none) := by
+  constructor
+  · rw [line_eq_spec, lexLine_string_only lno p a ha]
+  · rw [line_eq_spec, lexLine_semi_only]
+
+/-- In particular an EMPTY first literal is preserved across the line break: `""` at the end of a
+line (nothing carried in) is carried as `some ""`; the next line `"b";` yields the string token `b`,
+and the next line `;` yields the EMPTY string token. (Before the C10 fix the empty literal was
+indistinguishable from "nothing pending" and `""` ⏎ `;` produced no string token at all.) -/
+theorem merge_across_lines_empty (lno : Nat) (b : List Char) (hb : ∀ c ∈ b, c ≠ '"') :
+    (Lex.line lno none (String.ofList ['"', '"'])).map (fun o => (o.toks, o.pending)) = .ok ([], some "") ∧
+    (Lex.line (lno + 1) (some "") (String.ofList ('"' :: (b ++ ['"', ';'])))).map
+        (fun o => (o.toks.map fun t => (t.kind, t.text), o.pending)) =
+      .ok ([(.strLit, String.ofList b), (.semi, "")], none) ∧
+    (Lex.line (lno + 1) (some "") (String.ofList [';'])).map (fun o => (o.toks, o.pending)) =
+      .ok ([⟨.strLit, "", ⟨lno + 1, 1⟩⟩, ⟨.semi, "", ⟨lno + 1, 1⟩⟩], none) := by
+  have h1 := merge_across_lines lno none [] b (by simp) hb
+  have h2 := merge_across_lines_flush lno none [] (by simp)
+  simp only [Option.getD_none, List.nil_append, String.ofList_nil, String.append_empty,
+    String.empty_append] at h1 h2
+  exact ⟨h1.1, h1.2, h2.2⟩
 
 /-- The merged token therefore denotes the bytes of the concatenated RAW text; when the first
 literal ends outside a hex section these are the bytes of `a` followed by the bytes of `b`.
@@ -175,10 +207,13 @@ example : Rendering [.nib 13 true, .fill '\'', .nib 14 false, .fill ' ', .nib 10
   intro c hc; simp at hc; rcases hc with rfl | rfl <;> decide
 example : renderItems [.nib 13 true, .fill '\'', .nib 14 false, .fill ' ', .nib 10 false, .nib 13 true] =
     "D'e aD".toList := by decide
-example : (Lex.line 3 "" "\"ab\" \t\"cd\";").map (fun o => o.toks) =
+example : (Lex.line 3 none "\"ab\" \t\"cd\";").map (fun o => o.toks) =
     .ok [⟨.strLit, "abcd", ⟨3, 11⟩⟩, ⟨.semi, "", ⟨3, 11⟩⟩] := rfl
 -- a hex section spanning two adjacent literals: raw merge, then decode
-example : (Lex.line 1 "" "\"|41 4\" \"2|\";").map (fun o => o.toks.map (·.text)) = .ok ["|41 42|", ""] := rfl
+example : (Lex.line 1 none "\"|41 4\" \"2|\";").map (fun o => o.toks.map (·.text)) = .ok ["|41 42|", ""] := rfl
+-- an empty literal at the end of a line is not lost
+example : ((Lex.line 1 none "f(\"\"").map (·.pending), (Lex.line 2 (some "") ");").map (fun o => o.toks.map (·.kind))) =
+    (.ok (some ""), .ok [.strLit, .rparen, .semi]) := rfl
 example : decodeStr "|41 42|" = some [0x41, 0x42] := by decide
 example : LitDecode.endsPlain "|41 4".toList = false := by decide
 
